@@ -1,5 +1,6 @@
 import DimodProofs.CqmLiftMore
 import DimodProofs.CqmHistory
+import DimodProofs.CqmHistory2
 
 /-! # C05 — a CQM keeps every expression attached to the right variables
 
@@ -644,6 +645,52 @@ example :
     ∧ ((demo.run (ops.take 2)).step (ops.getD 2 .deepcopy)).2 = none
     ∧ ((demo.run (ops.take 3)).step (ops.getD 3 .deepcopy)).2 = none
     ∧ (demo.run ops).labels = [.str "i", .str "y"] := by
+  decide +kernel
+
+/-! ## round 7: the history fold over the builders, discrete forms, soft constraints, removal, bounds, relabelled constraints -/
+
+/-- **History-level refinement, extended.**  `specStepAll` is the specification's step on the list of label-keyed polynomials
+    for 26 of the 30 `Cqm.Op` constructors: everything `specStep` covers (now with SOFT `add_constraint` from an iterable too),
+    plus `set_objective(model)`, `add_constraint(model | comparison)` hard and soft, copied or moved (`copy=` does not
+    appear in the specification: the two paths denote the same polynomial), the three `add_discrete` forms (the constraint is
+    the one-hot equality of the listed variables, marked), `remove_variable`, `spin_to_binary`, `set_lower_bound` /
+    `set_upper_bound`, `relabel_constraints` and `deepcopy`.  From ANY reachable state (`pre` arbitrary), along ANY list of such
+    operations whose calls all return normally, with model arguments well formed and free of BINARY/SPIN self-loops (true of
+    every BQM / QM), the abstraction of the model's state is the fold of the specification.
+    Gap (hence `_partial`): `add_variable` (generated label / defaulted bounds: relational per-step statement
+    `refines_addVariable`), `flip_variable`, `change_vartype`, `relabel_variables` keep their per-step statements
+    (`refines_flipVariable`, `refines_changeVartype`, `relabel_refines`) and may be interleaved through `pre`. -/
+theorem history_refines_builders_partial (pre ops : List Cqm.Op) (hpre : ∀ op ∈ pre, OpOK op) (hops : ∀ op ∈ ops, OpOK2 op)
+    (hsucc : Succeeds (({} : Cqm).run pre) ops) (s' : LCqm)
+    (hspec : specRunAll (absCqm (({} : Cqm).run pre)) ops = some s') :
+    absCqm (({} : Cqm).run (pre ++ ops)) = s' := by
+  have hinv : RefInv (({} : Cqm).run pre) :=
+    ⟨history_inv pre hpre, history_labels pre, history_keysym pre hpre, history_sorted pre hpre⟩
+  have : ({} : Cqm).run (pre ++ ops) = (({} : Cqm).run pre).run ops := by
+    unfold Cqm.run; rw [List.foldl_append]
+  rw [this]
+  exact specRunAll_refines ops hinv hops hsucc s' hspec
+
+/-- one step of it; and `specStepAll` agrees with `specStep` wherever that is defined on a hard constraint / non-builder -/
+theorem step_refines_spec_all (m : Cqm) (h : RefInv m) (op : Cqm.Op) (hop : OpOK2 op) (s' : LCqm)
+    (hs : specStepAll (absCqm m) op = some s') (hok : (m.step op).2 = none) :
+    absCqm (m.step op).1 = s' ∧ RefInv (m.step op).1 :=
+  ⟨specStepAll_refines h op hop s' hs hok, refInv_step h op hop.ok⟩
+
+/-- not vacuous: on `demo`, a continuation through a model-built soft constraint, a discrete constraint over a new and an
+    existing variable, a bound, a relabelled constraint, `spin_to_binary`, a removed variable and a deep copy lies in the
+    extended fold, every call returns, and every argument meets `OpOK2` -/
+example :
+    let mi : Cqm.ModelIn := { vars := [.str "y", .str "s"], info := [(.binary, 0, 1), (.spin, -1, 1)], lin := [1, -2], quad := [(1, 0, 3)], off := 1 }
+    let ops : List Cqm.Op := [.addConstraintModel mi .ge 0 (.str "m") false (some 2) 0,
+                              .addDiscreteVars [.str "y", .str "z"] (.str "d") true,
+                              .setUpperBound (.str "i") 4, .relabelConstraints [(.str "c", .str "c'")], .spinToBinary,
+                              .addConstraintTerms [⟨[.str "i"], 1⟩] .le 2 (.str "soft") (some 3) 0,
+                              .removeVariable (.str "s"), .deepcopy]
+    (specRunAll (absCqm demo) ops).isSome = true
+    ∧ (∀ k, k < ops.length → ((demo.run (ops.take k)).step (ops.getD k .deepcopy)).2 = none)
+    ∧ (demo.run ops).labels = [.str "x", .str "i", .str "y", .str "z"]
+    ∧ (demo.run ops).clabels = [.str "c'", .str "m", .str "d", .str "soft"] := by
   decide +kernel
 
 end C05
